@@ -170,11 +170,11 @@ def _ref_nonexist_feat(x, eng, pi, pos):
 
 
 def _ref_extra_key(x, eng, pi, pos):
-    x.update(item=[x['item'][0], x['item'][1] + ['ghost']], real=None)
+    x.update(item=[x['item'][0], x['item'][1] + ['ghost%d' % len(x['item'][1])]], real=None)
 
 
 def _ref_ghost_sv(x, eng, pi, pos):
-    x.update(impl_svs=x['impl_svs'] + [['ghost', ['g']]], real=None)
+    x.update(impl_svs=x['impl_svs'] + [['ghost%d' % len(x['impl_svs']), ['g']]], real=None)
 
 
 def _ref_foreign_home(x, eng, pi, pos):
